@@ -401,6 +401,10 @@ impl Shared {
         self.start.elapsed().as_millis() as u64
     }
     fn ev(&mut self, conn: usize, dir: Dir, bytes: &[u8]) -> usize {
+        // a scenario that runs into the watchdog can produce events without end: keep the first 200000
+        if self.log.len() >= 200_000 {
+            return self.log.len() - 1;
+        }
         let e = ConnEv { t_ms: self.now_ms(), call: self.call, conn, dir, bytes: bytes.to_vec() };
         self.log.push(e);
         self.log.len() - 1
@@ -993,6 +997,21 @@ impl Connector for SimConnector {
     fn connect(&self, _addr: SocketAddrV4) -> ConnectFuture {
         let shared = self.shared.clone();
         Box::pin(async move {
+            // runaway guard: no operation of the client makes thousands of connection attempts within one call (its
+            // retry budgets allow a few hundred at most).  A loop that reconnects without ever waiting would spin
+            // inside one poll and never let the (virtual) clock reach the watchdog: from here on the connect never
+            // resolves, the clock advances, and the call is reported as not returning.
+            if shared.lock().unwrap().connects_in_call > 3000 {
+                {
+                    let mut sh = shared.lock().unwrap();
+                    if sh.connects_in_call == 3001 {
+                        let c = sh.next_conn;
+                        sh.ev(c, Dir::Note("runaway: more than 3000 connection attempts in one call; further attempts never resolve".into()), &[]);
+                    }
+                    sh.connects_in_call += 1;
+                }
+                std::future::pending::<()>().await;
+            }
             let (fault, conn) = {
                 let mut sh = shared.lock().unwrap();
                 let ordinal = sh.connects_in_call;
